@@ -101,14 +101,14 @@ def run(ctx):
     notes = []
     # ---------------------------------------------------------------- design
     cfg = ctx.pick("Conflicts_mc.cfg", "Conflicts_mc_thorough.cfg")
-    mc = tlc.run(ctx, "Conflicts", cfg, coverage=True, workers=workers, timeout=ctx.pick(900, 3000),
+    mc = tlc.run(ctx, "Conflicts", cfg, coverage=True, workers=workers, timeout=ctx.pick(1800, 7200),
                  heap=ctx.pick("6g", "12g"))
     if not mc.ok:
         raise InfraError("spec-level counterexample in Conflicts/%s: %s" % (cfg, mc.summary()))
     tlc.require_coverage(mc, ACTIONS)
     ctx.log("TLC %s: %d distinct / %d generated, %.0fs" % (cfg, mc.distinct, mc.generated, mc.wall))
     # documented expectation: "exclusive changes run alone" is NOT an invariant of the transcribed code
-    alone = tlc.run(ctx, "Conflicts", "Conflicts_mc_alone.cfg", workers=workers, timeout=900, name="tlc_alone")
+    alone = tlc.run(ctx, "Conflicts", "Conflicts_mc_alone.cfg", workers=workers, timeout=1800, name="tlc_alone")
     if alone.kind != "invariant" or alone.name != "ExclusiveAlone":
         raise InfraError("expected the ExclusiveAlone counterexample, got %s" % alone.summary())
 
@@ -122,9 +122,9 @@ def run(ctx):
     weak_n, weak_sample = 0, None
     runs = [
         ("snapstate", "overlord/snapstate", SNAPSTATE_FILES, "^TestVerifConflicts$",
-         {"VERIF_N": ctx.pick(80, 3000), "VERIF_LEN": ctx.pick(8, 10), "VERIF_PAIRS": ctx.pick("plain", "1")}),
+         {"VERIF_N": ctx.pick(80, 2000), "VERIF_LEN": ctx.pick(8, 10), "VERIF_PAIRS": ctx.pick("plain", "1")}),
         ("ifacestate", "overlord/ifacestate", IFACE_FILES, "^TestVerifConflictsIface$",
-         {"VERIF_N": ctx.pick(100, 3000)}),
+         {"VERIF_N": ctx.pick(100, 2000)}),
     ]
     for name, pkg, files, entry, env in runs:
         if violations:
@@ -152,7 +152,7 @@ def run(ctx):
         if bad:
             raise InfraError("conflicts driver (%s): request %s failed with a non-conflict error: %s"
                              % (name, _req(bad[0]), bad[0]["res"]["result"]))
-        r = conf.two_pass(ctx, "TraceConflicts", "TraceConflicts.cfg", out, name, timeout=ctx.pick(900, 3000))
+        r = conf.two_pass(ctx, "TraceConflicts", "TraceConflicts.cfg", out, name, timeout=ctx.pick(1800, 7200))
         ctx.log("trace validation %s: %d events, accepted=%s" % (name, len(rows), r["accepted"]))
         if not r["accepted"]:
             if r["kind"] == "stuck":
